@@ -1066,6 +1066,18 @@ func (c *Ctx) breakerSettingsFromConfig() {
 			if !tracked {
 				return
 			}
+			// a setting overwritten with a value computed from *another* setting (success threshold
+			// clamped to the half-open budget, say) is no longer the configured one either
+			fromS := map[string]bool{}
+			configOrigins(st.Val, "circuitbreaker.Settings", map[ssa.Value]bool{}, fromS, 0)
+			for g := range fromS {
+				if g != fr.Name {
+					if pos[fr.Name] == "" {
+						pos[fr.Name] = p.InstrPos(st)
+					}
+					got[fr.Name] = append(got[fr.Name], fmt.Sprintf("%s: Settings.%s is overwritten with a value computed from Settings.%s in %s: the breaker runs with another setting's value, not the configured %s", p.InstrPos(st), fr.Name, g, p.FuncKey(fn), exp))
+				}
+			}
 			from := map[string]bool{}
 			origins(st.Val, map[ssa.Value]bool{}, from, 0)
 			if len(from) == 0 {
